@@ -18,7 +18,11 @@ CHECKS = [
  dict(property_id='C07', design_ref='DESIGN.md section 6, C07',
   text='Coq theorems: every +,-,+=,-= and difference on VirtAddr/PhysAddr/Page/PhysFrame returns exactly the mathematical result when that is a valid value and panics otherwise (the model has no profile parameter on these paths); for ranges of ANY length with bounds in one half (resp. < 2^52): len = number of items yielded, items are start, start+1.. ascending, no panic (incl. last page of either half / last frame), None afterwards, size = len*SIZE, 2MiB->4KiB conversion keeps the bytes; induction on the item count. Correspondence in debug and release.',
   note=COMMON_NOTE + ' Four genuine defects found here were repaired by fix: commits in /repo (known_findings.txt).', technique=TECH),
+ dict(property_id='C08', design_ref='DESIGN.md section 6, C08',
+  text='Coq theorems for every 4 KiB-aligned address < 2^52 and every flag set from bits 0-11 and 52-63: set_addr/set_frame store exactly address+flags (hardware layout), reject misaligned addresses; addr() reads the address back; flags() reads the flags back exactly unless address bit 12 is set (known finding F7a, with refutation witness); set_flags keeps the address; unused iff zero; frame iff PRESENT; induction over every setter sequence; table = 512 words, set/get algebra, little-endian byte image, new/zero/is_empty. Partial: rustc struct layout is observed exhaustively over slots and access paths on the compiled artefact, not proved.',
+  note=COMMON_NOTE + ' Known finding F7a is listed in known_findings.txt.', technique=TECH),
 ]
-NOT_APPLICABLE = [dict(property_id='C%02d' % i, reason='check not built yet in this session (planned: Coq model + correspondence as in DESIGN.md section 6); nothing is claimed for it') for i in [1, 2] + list(range(8, 21))]
+DONE = {c['property_id'] for c in CHECKS}
+NOT_APPLICABLE = [dict(property_id='C%02d' % i, reason='check not built yet in this session (planned: Coq model + correspondence as in DESIGN.md section 6); nothing is claimed for it') for i in range(1, 21) if 'C%02d' % i not in DONE]
 HOOK_COMMITS = []
 NOTES = 'Technique family: machine-checked proof in Coq 8.16.1 over a hand-written executable model, tied to /repo on every run by a correspondence check. See DESIGN.md.'
